@@ -261,6 +261,18 @@ scpi_result_t h_torture(World &w, const InstrOpts &o) {
         }
     }
 
+    // names the firmware received earlier and kept in exact-size storage (no terminator behind them), matched later with the
+    // length-taking pattern test
+    {
+        static const char *pats[] = {"CHannel#", "TORTure:SUB#[:OPT]?", "OUTPut#:STATe", "TEST#:NUMbers#", "*IDN?", "[:MEASure]:VOLTage[:DC]?"};
+        std::string names[] = {"CH12", "ch3", "TORT:SUB18?", "OUTP2:STAT", "TEST1:NUM2", "CHANNEL007", u ? u->cmd_raw : std::string("X9")};
+        for (auto &nm : names) {
+            XBuf b(nm.size());
+            if (b.n) memcpy(b.p, nm.data(), b.n);
+            for (auto pt : pats) (void) SCPI_Match(pt, b.p, b.n);
+        }
+    }
+
     // numbers made by the application itself (a stored set-point in a unit of the firmware's choosing, a special value),
     // formatted for display: every unit, base and tag, whatever unit table the context has
     {
@@ -503,6 +515,15 @@ void instrument_install(World &w, const InstrOpts &o) {
         SCPI_ResultInt32(ww.ctx, 200 + ch[0]);
         return SCPI_RES_OK;
     });
+    // siblings below a prefix of more than 32 characters, equal in length
+    w.add_command("TEST:CALCulate:MEASurement:LIMit:CLIPping:STATe:UPPer?", [](World &ww) {
+        SCPI_ResultInt32(ww.ctx, 301);
+        return SCPI_RES_OK;
+    });
+    w.add_command("TEST:CALCulate:MEASurement:LIMit:CLIPping:STATe:LOWer?", [](World &ww) {
+        SCPI_ResultInt32(ww.ctx, 302);
+        return SCPI_RES_OK;
+    });
     w.add_command("TEST:MULTi?", h_multi);
     w.add_command("TEST:NOREsponse?", [](World &) { return SCPI_RES_OK; });
     w.add_command("TEST:FAIL", [](World &) { return SCPI_RES_ERR; });
@@ -578,6 +599,8 @@ const char *HEADERS_PLAIN[] = {
     "TEST:MULT?", "TEST:MULTi?", "TEST:NORE?", "TEST:FAIL", "TEST:FAIL?", "TEST:ERR", "TEST:BLKH?", "TEST:BLKD?", "TEST:BLKT?", "TEST:NULL", "TEST:NULL?", "TEST:NULL 1,2", "STUB", "STUB?", "VOLT?", "MEAS:VOLT?", "MEAS:VOLT:DC?",
     ":MEASure:VOLTage:DC?", "VOLT:AC?", "MEAS:VOLT:AC?", "SYST:COMM:TCPIP:CONTROL?", "TEST1:NUM2", "TEST:NUMbers", "TEST12:NUMB345",
     "TEST:OVER:STAT?", "TEST:OVER2:STAT?", "TEST:OVERlap1:STATe?", "TEST:OVER:STAT?",
+    "TEST:CALCULATE:MEASUREMENT:LIMIT:CLIPPING:STATE:UPPER?", "TEST:CALCULATE:MEASUREMENT:LIMIT:CLIPPING:STATE:LOWER?",
+    "TEST:CALCULATE:MEASUREMENT:LIMIT:CLIPPING:STATE:LOWER?", "TEST:CALC:MEAS:LIM:CLIP:STAT:UPP?",
 };
 const char *HEADERS_STATUS[] = {
     "*CLS", "*ESR?", "*ESE?", "*STB?", "*SRE?", "SYST:ERR?", "SYST:ERR:NEXT?", "SYST:ERR:COUN?", "STAT:QUES?", "STAT:OPER?", "STAT:PRES", "STAT:QUES:ENAB?",
